@@ -9,7 +9,7 @@ package main
 //   - kernel.(*Node).validateKernelSnapshot and validateConsensusTransactionReferences (hooks),
 //   - kernel.(*Node).WriteConsensusSnapshotWithHack and storage.WriteConsensusSnapshot,
 //   - the CONSENSUSSNAPSHOT key space (dump hook).
-// against lean/Mixin/Model/Consensus.lean. Op lines are `op args | oracle`; everything after
+// against lean/Mixin/Model/ConsensusChain.lean. Op lines are `op args | oracle`; everything after
 // `|` is produced by Exec (resolved timestamps, hashes, type codes) and ignored on replay.
 
 import (
@@ -44,7 +44,7 @@ func c28setup(st *State) *c28env {
 	if c28single != nil {
 		return c28single
 	}
-	dir := st.Dir + "/consensus"
+	dir := st.Dir + "/consensuschain"
 	if err := os.MkdirAll(dir, 0o755); err != nil {
 		panic(err)
 	}
@@ -99,7 +99,7 @@ func c28setup(st *State) *c28env {
 	if err != nil {
 		panic(err)
 	}
-	e := &c28env{store: store, node: node, netId: node.VerifNetworkId()}
+	e := &c28env{store: store, node: node, netId: node.VerifC28NetworkId()}
 	e.mainnetId, err = crypto.HashFromString(config.KernelNetworkId)
 	if err != nil {
 		panic(err)
@@ -186,7 +186,7 @@ func c28tx(e *c28env, spec string) *common.VersionedTransaction {
 			case r == "L":
 				// resolved from the raw records (ReadLastConsensusSnapshot may panic on a malformed tail)
 				ref := h("nolast")
-				if _, snaps, _ := e.store.VerifConsensusSnapshotRecords(); len(snaps) > 0 {
+				if _, snaps, _ := e.store.VerifC28ConsensusSnapshotRecords(); len(snaps) > 0 {
 					var sh crypto.Hash
 					copy(sh[:], snaps[len(snaps)-1])
 					if last, _ := e.store.ReadSnapshot(sh); last != nil && len(last.Transactions) > 0 {
@@ -236,7 +236,7 @@ func c28ts(e *c28env, spec string) uint64 {
 		}
 		return v
 	}
-	tss, _, _ := e.store.VerifConsensusSnapshotRecords()
+	tss, _, _ := e.store.VerifC28ConsensusSnapshotRecords()
 	base := e.gSnap.Timestamp
 	if len(tss) > 0 {
 		base = tss[len(tss)-1]
@@ -252,7 +252,7 @@ func c28ts(e *c28env, spec string) uint64 {
 }
 
 func c28dump(e *c28env) string {
-	tss, snaps, vals := e.store.VerifConsensusSnapshotRecords()
+	tss, snaps, vals := e.store.VerifC28ConsensusSnapshotRecords()
 	if len(tss) == 0 {
 		return "recs=-"
 	}
@@ -272,7 +272,7 @@ func c28dump(e *c28env) string {
 // chain check on the real records: every record but the last names the sole transaction of
 // the next record's snapshot, timestamps strictly increase, the last value is empty.
 func c28chainOK(e *c28env) (bool, string) {
-	tss, snaps, vals := e.store.VerifConsensusSnapshotRecords()
+	tss, snaps, vals := e.store.VerifC28ConsensusSnapshotRecords()
 	for i := range tss {
 		var h crypto.Hash
 		copy(h[:], snaps[i])
@@ -330,7 +330,7 @@ func c28writeBody(e *c28env, s *common.Snapshot) {
 	if old != nil {
 		return
 	}
-	err := e.store.VerifWriteSnapshotRecord(&common.SnapshotWithTopologicalOrder{Snapshot: s, TopologicalOrder: e.topo})
+	err := e.store.VerifC28WriteSnapshotRecord(&common.SnapshotWithTopologicalOrder{Snapshot: s, TopologicalOrder: e.topo})
 	if err != nil {
 		panic(err)
 	}
@@ -347,9 +347,9 @@ func c28exec(st *State, line string) Result {
 	setMode := func(m bool) {
 		e.mainnet = m
 		if m {
-			e.node.VerifSetNetworkId(e.mainnetId)
+			e.node.VerifC28SetNetworkId(e.mainnetId)
 		} else {
-			e.node.VerifSetNetworkId(e.netId)
+			e.node.VerifC28SetNetworkId(e.netId)
 		}
 	}
 	consensusTypes := map[uint8]bool{common.TransactionTypeMint: true, common.TransactionTypeNodePledge: true,
@@ -365,7 +365,7 @@ func c28exec(st *State, line string) Result {
 	case "mode":
 		setMode(f[1] == "1")
 		res.Out = "ok"
-		res.LeanIn = fmt.Sprintf("%s | %d", line, uint64(kernel.VerifMainnetConsensusReferenceForkAt))
+		res.LeanIn = fmt.Sprintf("%s | %d", line, uint64(kernel.VerifC28MainnetConsensusReferenceForkAt))
 	case "clear":
 		if e.mainnet {
 			res.Out = "bad-op"
@@ -408,7 +408,7 @@ func c28exec(st *State, line string) Result {
 			}
 		}
 		s := c28snap(e, self, round, ts, hashes)
-		kd := c28decision(func() error { return e.node.VerifValidateKernelSnapshot(s, found, fin) })
+		kd := c28decision(func() error { return e.node.VerifC28ValidateKernelSnapshot(s, found, fin) })
 		bits := ""
 		var descs, hs []string
 		allBatchable := true
@@ -442,9 +442,9 @@ func c28exec(st *State, line string) Result {
 				}
 			}
 		} else if len(hashes) == 1 && len(foundList) == 1 && consensusTypes[foundList[0].TransactionType()] &&
-			!(fin && e.mainnet && ts < kernel.VerifMainnetConsensusReferenceForkAt) {
+			!(fin && e.mainnet && ts < kernel.VerifC28MainnetConsensusReferenceForkAt) {
 			// glue: whenever the kernel validator accepts a consensus operation, the reference rule accepted it
-			rd := c28decision(func() error { return e.node.VerifValidateConsensusTransactionReferences(s, foundList[0]) })
+			rd := c28decision(func() error { return e.node.VerifC28ValidateConsensusTransactionReferences(s, foundList[0]) })
 			if kd == "accept" && rd != "accept" {
 				res.PropKey, res.PropDesc = "C28:kernel-accepts-without-reference", "validateKernelSnapshot accepted while the reference rule says "+rd+": "+line
 			}
@@ -455,7 +455,7 @@ func c28exec(st *State, line string) Result {
 		ts := c28ts(e, f[1])
 		tx := c28tx(e, f[2])
 		s := c28snap(e, true, 1, ts, []crypto.Hash{tx.PayloadHash()})
-		rd := c28decision(func() error { return e.node.VerifValidateConsensusTransactionReferences(s, tx) })
+		rd := c28decision(func() error { return e.node.VerifC28ValidateConsensusTransactionReferences(s, tx) })
 		res.Out = "r=" + rd
 		res.LeanIn = fmt.Sprintf("%s | %d %s", line, ts, c28desc(tx))
 		res.Tags = append(res.Tags, "cref/"+rd, fmt.Sprintf("type-%d", tx.TransactionType()))
@@ -494,8 +494,8 @@ func c28exec(st *State, line string) Result {
 		ts := c28ts(e, f[1])
 		tx := c28tx(e, f[2])
 		s := c28snap(e, true, 1, ts, []crypto.Hash{tx.PayloadHash()})
-		_, _, valsB := e.store.VerifConsensusSnapshotRecords()
-		rd := c28decision(func() error { return e.node.VerifValidateConsensusTransactionReferences(s, tx) })
+		_, _, valsB := e.store.VerifC28ConsensusSnapshotRecords()
+		rd := c28decision(func() error { return e.node.VerifC28ValidateConsensusTransactionReferences(s, tx) })
 		w := "-"
 		if rd == "accept" {
 			c28writeBody(e, s)
@@ -511,7 +511,7 @@ func c28exec(st *State, line string) Result {
 		res.Out = fmt.Sprintf("r=%s w=%s %s", rd, w, c28dump(e))
 		res.LeanIn = fmt.Sprintf("%s | %d %s %s", line, ts, c28h(s.PayloadHash()), c28desc(tx))
 		res.Tags = append(res.Tags, "cop/r="+rd+"/w="+w, fmt.Sprintf("type-%d", tx.TransactionType()))
-		_, _, valsA := e.store.VerifConsensusSnapshotRecords()
+		_, _, valsA := e.store.VerifC28ConsensusSnapshotRecords()
 		if len(valsA) > len(valsB) {
 			res.Tags = append(res.Tags, "cop/extended-chain")
 			res.Nontrivial = true
@@ -686,7 +686,7 @@ func c28gen(r *Rand, i int, tier string) []string {
 
 func init() {
 	Register(&Subsystem{
-		Name: "consensus",
+		Name: "consensuschain",
 		Rule: "1/3 of the cases: 3..10 snapshots of 1..255 transactions mixing all 13+2 classes through validateKernelSnapshot (finalized/self/round/mainnet flags, bodies missing, timestamps around the fork); 2/3: 4..16 (thorough 4..40) consensus operations with right/wrong/missing/misplaced references and timestamps <,=,> the last, through the reference validator, WriteConsensusSnapshotWithHack and the raw WriteConsensusSnapshot; non-trivial = multi-transaction snapshot, accepted snapshot, reference decision on a consensus class, or a write that extended the chain",
 		Gen:  c28gen,
 		Exec: c28exec,
